@@ -266,6 +266,27 @@ def run(ctx):
                            "text": text, "subst_text": subst_text})
             continue
         substp.append((text, dict(vals), subst_text))
+    # an int array that holds parameters next to literals that are not integers: the literals are cast to the
+    # declared element type when the template is loaded, exactly as in the substituted script
+    for _ in range(ctx.n(20, 200)):
+        lits = [ctx.rng.choice(["2.75", "-7/2", "1.5", "9/2", "3", "-0.5", "7.999"]) for _ in range(3)]
+        pn = ctx.rng.choice(["p", "a", "op"])
+        pos = ctx.rng.randrange(3)
+        row = list(lits)
+        row[pos] = "{%s}" % pn
+        val = ctx.rng.choice([5, -2, 0, 11])
+        head = "name t\nversion 1.0\n\n"
+        body = "int array A_[1, 3] =\n    %s\nG(A_) | [0, 1]\nH(A_[%d], k=A_[%d]) | 0\n"
+        text = head + body % (", ".join(row), (pos + 1) % 3, (pos + 2) % 3)
+        row[pos] = "(%d)" % val
+        subst_text = head + body % (", ".join(row), (pos + 1) % 3, (pos + 2) % 3)
+        ctx.count("int-array-with-parameter-and-fractional-literals")
+        ctx.case((text, val), nontrivial=True)
+        texts.append(text)
+        msg = oracles.o_template_call(text, {pn: val}, subst_text)
+        if msg:
+            ctx.violation("template instantiation: " + msg,
+                          {"kind": "template_call", "text": text, "kwargs": {pn: val}, "subst_text": subst_text})
     common.loads_corr(ctx, texts, "LOADS(template)")
     call_corr(ctx, corr)
     substp_corr(ctx, substp)
